@@ -312,6 +312,32 @@ pub fn one_run(seed: u64, run: u64, pools: &Pools, or: &Oracles, deliveries: usi
         let n = if rng.chance(1, 2) { 512 } else { 1024 };
         byzantine_deliveries(&mut rng, or, n, &mut batch);
     }
+    // Z6: compare the verifier's HashToPoint (read-only hook wrapper) with the reference's on ground
+    // salts and edge-length messages; a disagreement is turned into a triple on which the verdicts differ
+    for g in 0..6 {
+        let n = if rng.chance(2, 3) { 512 } else { 1024 };
+        let p = codec::params(n);
+        let msg = if g < 4 { let l = rng.usize_below(16); rng.bytes(l) } else { world::message(&mut rng) };
+        let (salt, rej) = if g < 4 { byz::grind_salt(&mut rng, &msg, n, 4000) } else { (rng.bytes(40), 0) };
+        let mut sm = salt.clone();
+        sm.extend_from_slice(&msg);
+        st.inc("z6.hash_points_compared");
+        if rej >= n / 8 {
+            st.inc("z6.salts_with_more_than_n_over_8_rejections");
+        }
+        let imp = match guarded(|| falcon_rust::verif_hooks::hash_to_point(&sm, n)) {
+            Ok(v) => v,
+            Err(_) => continue, // an unwind here is C03's subject (the same salts reach verify there)
+        };
+        let refc = crate::reference::specverify::hash_to_point(&sm, n);
+        let diff: Vec<usize> = (0..n).filter(|&i| imp.get(i).map(|x| *x as i64) != Some(refc[i])).collect();
+        if !diff.is_empty() {
+            st.inc("z6.hash_point_disagreements");
+            if let Some(tr) = byz::flip_triple(p, &mut rng, &salt, &msg, &diff) {
+                batch.push(Delivery { n, target: Target::Verify, bytes: tr.sig, msg: tr.msg, pk: tr.pk, pristine: None, faults: vec![], origin: "Z6-hash-flip".into(), detail: format!("{} ({} rejected samples)", tr.note, rej) });
+            }
+        }
+    }
     while batch.len() < deliveries {
         batch.push(dl::draw(&mut rng, pools, &mixf, &PROFILE));
     }
